@@ -29,11 +29,24 @@ fn session_via(seed: u64, m: Option<u32>, r: Option<u16>, own_limit: Option<u32>
         sim.settle();
     }
     let mut props = Vec::new();
+    // the CONNACK says more than the limit: a Session Expiry Interval in front of it or behind it (by the parity of M), an
+    // assigned client identifier and a user property around the Receive Maximum
+    let chatty = m.map(|m| m % 3).unwrap_or(1);
+    if chatty == 1 {
+        props.push(Prop::u32(17, 120));
+        props.push(Prop::str(18, "assigned"));
+    }
     if let Some(m) = m {
         props.push(Prop::u32(39, m));
     }
+    if chatty == 2 {
+        props.push(Prop::u32(17, 0));
+    }
     if let Some(r) = r {
         props.push(Prop::u16(33, r));
+    }
+    if chatty != 0 {
+        props.push(Prop::pair("ck", "cv"));
     }
     sim.feed_packet(&SPacket::Connack { session_present: false, reason: 0, props });
     sim.settle();
